@@ -27,11 +27,15 @@ def norm(t):
 def _outcome(name, ok_allowed):
     """'OK' | 'NO' | 'ERR-applied' | 'ERR-not-applied'"""
     if core.branch(sym.fresh_bool(name + "_breaks").t):
+        core.cur().ghost.setdefault("outcomes", []).append("ERR")
         if core.branch(z3.And(ok_allowed, sym.fresh_bool(name + "_applied_before_break").t)):
             return "ERR-applied"
         return "ERR-not-applied"
+    G = core.cur().ghost
     if core.branch(z3.And(ok_allowed, sym.fresh_bool(name + "_ok").t)):
+        G.setdefault("outcomes", []).append("OK")
         return "OK"
+    G.setdefault("outcomes", []).append("NO")
     return "NO"
 
 
@@ -226,6 +230,13 @@ def h_rename():
     prove(implies(neg(is_active(active0, hasact0, old)),
                   both(mkb(hasact1) == mkb(hasact0), implies(mkb(hasact0), same_name(active1, active0)))),
           "active-pointer-untouched-unless-old-was-active")
+    # C09 for the multi-step operation: when the old script exists, the target name is free and every step was answered OK, the rename succeeds
+    outcomes = G.get("outcomes", [])
+    all_ok = len(outcomes) > 0
+    for o in outcomes:
+        all_ok = all_ok and o == "OK"
+    if kind == "return" and all_ok:
+        prove(implies(both(srv_has(has0, old), neg(srv_has(has0, new))), r is True), "all-steps-OK-old-present-target-free-gives-True")
     # P3: success
     if kind == "return" and r is True:
         prove(srv_has(has0, old), "true.old-existed")
